@@ -2186,6 +2186,11 @@ func (gs *GossipSubRouter) pushControl(p peer.ID, ctl *pb.ControlMessage) {
 	ctl.Iwant = nil
 	ctl.Idontwant = nil
 	if ctl.Graft != nil || ctl.Prune != nil {
+		// keep what is already waiting for a retry: the fragments of one split RPC are dropped one by one
+		if pending, ok := gs.control[p]; ok && pending != ctl {
+			ctl.Graft = append(pending.Graft, ctl.Graft...)
+			ctl.Prune = append(pending.Prune, ctl.Prune...)
+		}
 		gs.control[p] = ctl
 	}
 }
